@@ -297,7 +297,7 @@ fn direct_entry_points(run: &mut Run, tier: Tier, only: Option<(&str, &str, &str
 
 pub fn main(tier: Tier, replay: Option<serde_json::Value>) -> i32 {
     let mut run = Run::new("C13", tier, "model_checking");
-    run.rule = "P over subgroup points, every torsion coset S + T (T in E[8] \\ {O}: orders 2, 4, 8) and off-curve pairs; Q over the complete on-curve preimage set [8^-1]P + T' (all 8 T'), other on-curve points and off-curve pairs; every (P, Q) through the real torsion-free gates (seam) plus bound-1 deviations, decided by M1; oracle: satisfiable iff Q on-curve and [8]Q = P (own affine Edwards arithmetic), hence for some Q iff P is an on-curve subgroup member; the direct entry points over extended representations (normal, scaled Z, Z = 0, inconsistent T1 T2) must accept exactly members (generator: and non-identity) and reject Z = 0 without panicking".into();
+    run.rule = "P over subgroup points, every torsion coset S + T (T in E[8] \\ {O}: orders 2, 4, 8) and off-curve pairs; Q over the complete on-curve preimage set [8^-1]P + T' (all 8 T'), other on-curve points and off-curve pairs; every (P, Q) through the real torsion-free gates (seam) plus bound-1 deviations, decided by M1; oracle: satisfiable iff Q on-curve and [8]Q = P (own affine Edwards arithmetic), hence for some Q iff P is an on-curve subgroup member; the direct entry points over extended representations (normal, scaled Z, Z = 0, inconsistent T1 T2) must accept exactly members (generator: and non-identity) and reject Z = 0 without panicking; entry points run on a fresh composer AND after every history of valid earlier calls (constant identity / G, generator G, combinations); candidates include off-curve neighbours sharing a coordinate with a member".into();
     let cs = cases(tier);
     let cache = ConfirmCache::new(crate::setup::pp(64));
     if let Some(r) = replay {
